@@ -339,6 +339,42 @@ func c09(r *mon.Run) {
 			cx.runBoth(tree, expr, doc)
 			t.Nontrivial("srel:" + strconv.Itoa(i))
 		}}
+	// to_string of values holding strings that look like escapes or markup: the JSON text must decode back to the
+	// argument whatever an encoder (or a post-processing step) makes of \u003c, &, backslashes, quotes, control
+	// characters, line separators
+	tricky := []string{"<", ">", "&", "<b>&amp;</b>", "\\u003c", "\\u003e \\u0026", "\\\\u003c", "\\", "\\\\", "\"", "\\\"", "\\n", "\n", "\t", "\r\n", "\x00", "\x1f", "\x7f", "\u2028", "\u2029", "\ufeff", "\ufffd", "/", "\\/", "</script>",
+		"é", "\\u00e9", "😀", "\\ud83d\\ude00", "%s %d %%", "{\"k\": \"\\u003cv\\u003e\"}", "[\"<\"]", "null", "true", "1e5", "", " ", "'", "`", "\\'", "\\`"}
+	trw := mon.Workload{Name: "to_string-of-tricky-strings", N: len(tricky) * 8,
+		Do: func(i int, t *mon.Tally) {
+			sv := tricky[i/8]
+			var v interface{}
+			switch i % 8 {
+			case 0:
+				v = sv
+			case 1:
+				v = []interface{}{sv}
+			case 2:
+				v = map[string]interface{}{"k": sv}
+			case 3:
+				v = map[string]interface{}{sv: float64(1)}
+			case 4:
+				v = map[string]interface{}{sv: []interface{}{sv, map[string]interface{}{sv: sv}}}
+			case 5:
+				v = []interface{}{sv, "<" + sv + ">", sv + sv}
+			case 6:
+				v = []interface{}{[]interface{}{[]interface{}{sv}}}
+			default:
+				v = map[string]interface{}{"a": sv, "b": "&" + sv, "c": nil}
+			}
+			doc := map[string]interface{}{"v": v}
+			for k, tree := range []*gen.Expr{gen.Func("to_string", gen.Field("v")), gen.Func("to_string", gen.Func("to_string", gen.Field("v"))), gen.Func("to_string", gen.LitVal(v)),
+				gen.Func("length", gen.Func("to_string", gen.Field("v"))), gen.Func("join", gen.Raw(""), gen.MultiList(gen.Func("to_string", gen.Field("v"))))} {
+				cx := &caseCtx{r, t, "to_string-of-tricky-strings", i*8 + k}
+				cx.idx = i
+				cx.runBoth(tree, gen.Spell(tree), doc)
+			}
+			t.Nontrivial("tricky:" + strconv.Itoa(i))
+		}}
 	// nested in random contexts
 	nr := tierPick(r, 40000, 1000000)
 	ctx := mon.Workload{Name: "calls-in-context", N: nr,
@@ -433,5 +469,5 @@ func c09(r *mon.Run) {
 				t.Nontrivial("large:" + expr + ref.Canon(doc))
 			}
 		}}
-	r.Exec(exh, typed, every, strw, ctx, large, sizedWorkload(r, "sized-arrays", false))
+	r.Exec(exh, typed, every, strw, trw, ctx, large, sizedWorkload(r, "sized-arrays", false))
 }
